@@ -13,29 +13,31 @@ const symlinkPrefix = "\x00SYMLINK:"
 // Vars are the source-level variables of the project shape; source files are rendered
 // from them, so an edit is a change of one variable and "revert" reproduces the same text.
 type Vars struct {
-	A       int  // src/a.txt content version
-	B       int  // pkg/b.txt content version
-	X       int  // dir/x.txt content version
-	YName   int  // 0: dir/y.txt exists, 1: the same content is called dir/z.txt
-	W       bool // dir/w.txt present
-	K       int  // lib.dawn constant: index into kvals
-	D       int  // default argument of leaf's function
-	H       int  // helper body version
-	G       int  // element of the global list referenced by mid
-	V       int  // closure variable referenced by mid
-	C1      bool // comment + blank line in BUILD.dawn
-	C2      bool // comment + docstring in lib.dawn
-	C3      bool // comment in pkg/BUILD.dawn
-	N       int  // misc/n.txt (outside every closure)
-	Edge    bool // top depends on //pkg:leaf
-	Other   bool // target //pkg:other exists
-	FlagV   int  // value of the flag read by leaf's package (passed as --pkg.mode=…)
-	Link    int  // 0: no link; 1: dir/link -> ../misc/n.txt; 2: dir/link -> ../misc/m.txt (a symbolic link inside the source directory)
-	Late    int  // value of a global that gen's function refers to but that is assigned below the target() call
-	Missing bool // top also depends on a target that does not exist
-	Cycle   bool // leaf depends on top (a dependency cycle when the edge top->leaf exists)
-	Chatty  bool // bodies print lines (and a trailing partial line) through the thread's stdout
-	Fail    [3]bool
+	A         int  // src/a.txt content version
+	B         int  // pkg/b.txt content version
+	X         int  // dir/x.txt content version
+	YName     int  // 0: dir/y.txt exists, 1: the same content is called dir/z.txt
+	W         bool // dir/w.txt present
+	K         int  // lib.dawn constant: index into kvals
+	D         int  // default argument of leaf's function
+	H         int  // helper body version
+	G         int  // element of the global list referenced by mid
+	V         int  // closure variable referenced by mid
+	C1        bool // comment + blank line in BUILD.dawn
+	C2        bool // comment + docstring in lib.dawn
+	C3        bool // comment in pkg/BUILD.dawn
+	N         int  // misc/n.txt (outside every closure)
+	Edge      bool // top depends on //pkg:leaf
+	Other     bool // target //pkg:other exists
+	FlagV     int  // value of the flag read by leaf's package (passed as --pkg.mode=…)
+	Link      int  // 0: no link; 1: dir/link -> ../misc/n.txt; 2: dir/link -> ../misc/m.txt (a symbolic link inside the source directory)
+	Late      int  // value of a global that gen's function refers to but that is assigned below the target() call
+	AlwaysGen bool // gen is declared always=True
+	Sabotage  bool // leaf's body removes .dawn/build/temp, so that recording its result fails
+	Missing   bool // top also depends on a target that does not exist
+	Cycle     bool // leaf depends on top (a dependency cycle when the edge top->leaf exists)
+	Chatty    bool // bodies print lines (and a trailing partial line) through the thread's stdout
+	Fail      [3]bool
 }
 
 var kvals = []int{1, 300, 76800} // 1-byte, 2-byte and 4-byte pickle classes
@@ -106,7 +108,7 @@ func (v Vars) render() map[string]string {
     step("gen")
     emit("gen/g.txt", "g:" + slurp("src/a.txt") + ":" + str(helper(0)) + ":" + str(LATE))
     emit("out/gen.side", "side")
-target(name="gen", function=_gen, sources=["src/a.txt"], generates=["gen/g.txt"])
+target(name="gen", function=_gen, sources=["src/a.txt"], generates=["gen/g.txt"]__ALWAYS__)
 def _mid(t):
     step("mid")
     emit("out/mid", "mid:" + slurp("gen/g.txt") + ":" + listing("dir") + ":" + str(G[1]) + ":" + str(closure(1)))
@@ -129,7 +131,11 @@ def _top(t):
 		b.WriteString("target(name=\"top\", function=_top, deps=[\":mid\"" + extra + "])\n")
 	}
 	fmt.Fprintf(&b, "LATE = %d\n", 7+v.Late) // assigned after the targets that refer to it were registered
-	f["BUILD.dawn"] = b.String()
+	alw := ""
+	if v.AlwaysGen {
+		alw = ", always=True"
+	}
+	f["BUILD.dawn"] = strings.ReplaceAll(b.String(), "__ALWAYS__", alw)
 
 	var p strings.Builder
 	if v.C3 {
@@ -137,6 +143,9 @@ def _top(t):
 	}
 	p.WriteString("mode = parse_flag(\"mode\", default=\"m0\")\n")
 	fmt.Fprintf(&p, "def _leaf(t, d=%d):\n    step(\"leaf\")\n    emit(\"out/leaf\", \"leaf:\" + slurp(\"pkg/b.txt\") + \":\" + str(d) + \":\" + mode)\n", 5+v.D)
+	if v.Sabotage {
+		p.WriteString("    sabotage()\n")
+	}
 	if v.Chatty {
 		p.WriteString("    say(\"leaf says\\n\")\n    say(\"hello\")\n    say(\" world\\n\")\n")
 	}
@@ -166,7 +175,7 @@ func (v Vars) env(t string) string {
 	case tTop:
 		return fmt.Sprintf("E%v C%v", v.Edge, v.Chatty)
 	case tLeaf:
-		return fmt.Sprintf("D%d F%d C%v", v.D, v.FlagV, v.Chatty)
+		return fmt.Sprintf("D%d F%d C%v S%v", v.D, v.FlagV, v.Chatty, v.Sabotage)
 	case tOther:
 		return ""
 	}
